@@ -28,8 +28,8 @@ checks = {
  "C08": ("exhaustive enumeration of the reachable object graph per state + every exported zero-argument method by reflection; full key-space enumeration of the packed-string decoders",
          "For every civil day of the year set (time of day rotating over the 26 slot edges) the object graph reachable from the date (25 types) is built and every exported zero-argument method is called; totality, index ranges, vocabulary membership, non-empty strings and duplicate-free lists are checked on every result. The decoders of the packed yi/ji and shen-sha strings are additionally enumerated over their complete key space (60x60, 24x60).",
          "name-suffix keyed range/vocabulary rules; fixed list of optional (possibly empty) strings stated in evidence assumptions", "4 C08"),
- "C09": ("explicit-state BFS over call histories on the real package state (to a fixpoint on a canonical hidden-state digest, cross-checked by an unreduced depth-bounded enumeration) + stateless exploration of all interleavings at lock points under a hand-written controlled scheduler with iterative preemption bounding + separate free-running race-detector pass",
-         "Histories: every call of a 34-call alphabet from every reachable hidden state must return its pristine-state value; all sequences to depth 3 enumerated without reduction. Schedules: the library's sync import is redirected (build overlay) to a shim whose Lock/Unlock are scheduling points; 207 scenarios of 2-3 threads are run under every schedule up to the bound (quick 0,1,2; thorough unbounded with state-key pruning), each result compared with its sequential reference, deadlock = no enabled thread, lock and cache checked at the end. Below lock level: go -race on free-running copies of the same thread bodies.",
+ "C09": ("explicit-state BFS over call histories on the real package state (fixpoint on a canonical hidden-state digest, cross-checked by an unreduced depth-bounded enumeration) + adjacent-cache and order-independence sweeps + accessor-purity snapshots + stateless exploration of all interleavings at lock points under a hand-written controlled scheduler with iterative preemption bounding + separate free-running race-detector pass",
+         "Histories: every call of a 34-call alphabet from every reachable hidden state must return its pristine-state value; all sequences to depth 3 enumerated without reduction. Schedules: the library's sync import is redirected (build overlay) to a shim whose Lock/Unlock are scheduling points; 207 scenarios of 2-3 threads are run under every schedule up to the bound (quick 0,1,2; thorough unbounded with state-key pruning), each result compared with its sequential reference, deadlock = no enabled thread, lock and cache checked at the end. Also: for every year of the year set the same ~130 calls with the year cache primed by Y-1/Y+1/Y+2; one broad probe over all days of a year subset in five visiting orders (one process each) merged as a functional-dependence table; deep private-state snapshots of 26 object types before/after every exported zero-argument method (a write without lock operations = unsynchronised write by a read-only accessor). Below lock level: go -race on free-running copies of the same thread bodies and shared-accessor sweeps.",
          "scheduling points at mutex operations + race detector for unsynchronised accesses; hidden-state inventory confirmed by a go/ast scan at run time", "4 C09 / 3.3"),
  "C10": ("exhaustive enumeration of moments (days x 13 slot entries x 2 conventions, all Jie instants +-1s and slot ends, base years) with forward conversion as oracle",
          "Every enumerated moment's four pillars are fed to the reverse lookup; completeness (a result in the same slot), soundness (every result converts forward to the same pillars, not before the base year) and strict order are checked on every lookup.",
@@ -37,8 +37,8 @@ checks = {
  "C12": ("exhaustive enumeration of birth moments of a year set x gender x school, whole fortune tree per configuration, decode-and-compare / mod-60 reference",
          "Every day of the birth-year set at two times plus five moments around every Jie instant; direction, start offset (decoded back to elapsed time), start date, contiguity and ages of the ten great periods, and the pillars of every annual/minor/monthly fortune are compared with the rule sentences.",
          "school-1 tolerance 2 slots, school-2 1 minute (reasons in DESIGN.md C12)", "4 C12"),
- "C14": ("exhaustive enumeration of all days/months/years/targets of the holiday table against a parsed record-set model + BFS over Fix histories on the real package state",
-         "Pristine table: every view compared with sorted filters of the parsed record set; every day x 25 step counts for the workday walk; pay rate on every day. Fix machine: BFS (depth 2 quick / 3 thorough, 14-call alphabet) de-duplicated on the exact (names, table) pair with all views re-compared after every transition.",
+ "C14": ("exhaustive enumeration of all days/months/years/targets of the holiday table against a parsed record-set model + exhaustive enumeration of Fix histories (each in its own fresh process) on the real package state",
+         "Pristine table: every view compared with sorted filters of the parsed record set; every day x 25 step counts for the workday walk; pay rate on every day. Fix machine: every history over a 21-call alphabet to depth 2 (quick) / 3 (thorough), each executed in its own process, with all views, the workday walk and the pay rate observed before the first fix-up and re-compared with the record-set model after each.",
          "R5 insert/overwrite/delete semantics of Fix; statutory-day list as documented in the code", "4 C14"),
  "C11": (SWEEP + "; fixed list of ~95 route pairs per moment, functional-dependence tables for eight-character attributes",
          "Every day x 14 moments: both routes of every pair are executed and compared; eight-character attributes are collapsed by the pillars selected by the current sect and a second value per key is a violation with two witnesses.",
